@@ -7,4 +7,5 @@ mkdir -p .build evidence replays
 ./build.sh
 echo '{"op":"ping"}' | /root/.nvm/versions/node/v20.20.2/bin/node --experimental-vm-modules js/worker.js
 ./sched/build.sh
+RACE=1 ./sched/build.sh
 echo setup ok
